@@ -43,8 +43,26 @@ Apply(s, H) ==
 
 RefMatches(s, v) == Slice(s, v.start, v.end) = v.ref
 
-(* adjacent small variants merged into one MNV (--max-adjacent-as-mnv k >= 2):  *)
-(* chains v1, v2, ... with v(i+1).start = v(i).end, all substitutions or all      *)
-(* indels, up to k members                                                        *)
 Class(v) == IF Len(v.ref) = 1 /\ Len(v.alt) = 1 THEN "SNV" ELSE IF IsIns(v) \/ IsDel(v) THEN "INDEL" ELSE "MNV"
+
+(* --max-adjacent-as-mnv k (the command line default is 2): two directly adjacent   *)
+(* variants of one class (both single-base substitutions, or both indels) also sit   *)
+(* on one haplotype - the tool merges them into one MNV record - as long as the      *)
+(* merged pair is itself separated from every other variant of the haplotype.        *)
+(* (Chains of three or more are only merged for k >= 3; with k = 2 they are left to   *)
+(* the permissive variant below, which C02 uses.)                                     *)
+Adjacent(a, b, startIdx) == EffEnd(a, startIdx) = EffStart(b, startIdx)
+Mergeable(a, b, startIdx) ==
+  Class(a) = Class(b) /\ Class(a) # "MNV" /\ (Adjacent(a, b, startIdx) \/ Adjacent(b, a, startIdx))
+CompatibleK(H, startIdx, k) ==
+  \A a \in H : \A b \in H :
+     \/ a = b
+     \/ Separate(a, b, startIdx)
+     \/ (k >= 2 /\ Mergeable(a, b, startIdx)
+           /\ \A c \in H \ {a, b} : Separate(a, c, startIdx) /\ Separate(b, c, startIdx))
+CompatibleLoose(H, startIdx, k) ==
+  \A a \in H : \A b \in H : a = b \/ Separate(a, b, startIdx) \/ (k >= 2 /\ Mergeable(a, b, startIdx))
+HaplotypesK(V, startIdx, k) == {H \in SUBSET V : H # {} /\ CompatibleK(H, startIdx, k)}
+HaplotypesLoose(V, startIdx, k) == {H \in SUBSET V : H # {} /\ CompatibleLoose(H, startIdx, k)}
+
 =============================================================================
